@@ -20,3 +20,5 @@ done
 # the checks regenerate lean/PygyroVerif/Generated/* from the tree under test: put back what /repo says
 /venv/bin/python /verif/harness/translate_driver.py --repo /repo --quiet >/dev/null 2>&1
 /venv/bin/python /verif/harness/translate_pure.py --repo /repo --quiet >/dev/null 2>&1
+/venv/bin/python /verif/harness/translate_routes.py --repo /repo --quiet >/dev/null 2>&1
+/venv/bin/python /verif/harness/translate_gridops.py --repo /repo --quiet >/dev/null 2>&1
